@@ -65,8 +65,8 @@ def _assigned_names(body, stop_at_fn=True):
 
     def go(n):
         if isinstance(n, dict):
-            if n.get("t") == "fn" and stop_at_fn and n is not body:
-                return
+            if n.get("t") == "fn" and stop_at_fn:
+                return            # names assigned inside an inner function literal belong to that function
             if n.get("t") == "assign":
                 out.add(n["tgt"]["n"])
             if n.get("t") == "for":
